@@ -137,3 +137,62 @@ func verifHarness_C19_CloseReplay40() {
 	}
 	rt.Assert(verifSnapshot40(r) == before, "neither is executed again")
 }
+
+// The very first OPEN of an open-owner (not yet confirmed) is retransmitted:
+// it is answered from the reply cache like any other retransmission: same
+// reply, the file is not opened again and the first open is not closed.
+func verifHarness_C19_FirstOpenReplay40() {
+	rt.MustCover("first-open:replayed", "first-open:other-seqid")
+	r := verifNewRig40("f")
+	c := r.setClientID("client-a", 1)
+	s0 := nfsv4.Seqid4(rt.NondetU32("first.seqid"))
+	res1 := r.open(c, "o1", s0, "f", virtual.ShareMaskRead|virtual.ShareMaskWrite)
+	rt.Assert(res1.GetStatus() == nfsv4.NFS4_OK, "the first OPEN succeeds")
+	before := verifSnapshot40(r)
+	seq := nfsv4.Seqid4(rt.NondetU32("second.seqid"))
+	res2 := r.open(c, "o1", seq, "f", virtual.ShareMaskRead|virtual.ShareMaskWrite)
+	if seq == s0 {
+		rt.Cover("first-open:replayed")
+		rt.Assert(res2 == res1, "a retransmitted first OPEN gets the reply given the first time")
+		rt.Assert(verifSnapshot40(r) == before, "a retransmitted first OPEN is not executed again")
+	} else {
+		// a different sequence number on an unconfirmed owner starts the owner afresh
+		rt.Cover("first-open:other-seqid")
+		l := r.dir.leaves["f"]
+		rt.Assert(l.outstanding(0) <= 1 && l.outstanding(1) <= 1, "an abandoned unconfirmed open is not leaked")
+	}
+}
+
+// A retransmitted OPEN inside PUTROOTFH OPEN GETFH: the whole COMPOUND reply,
+// including the file handle reported after the OPEN, is the one given the
+// first time.
+func verifHarness_C19_OpenReplayCompound40() {
+	rt.MustCover("open-compound:replayed")
+	r := verifNewRig40("f")
+	c := r.setClientID("client-a", 1)
+	s0 := nfsv4.Seqid4(rt.NondetU32("first.seqid"))
+	send := func() *nfsv4.Compound4res {
+		return r.compound(&nfsv4.NfsArgop4_OP_PUTROOTFH{}, &nfsv4.NfsArgop4_OP_OPEN{Opopen: nfsv4.Open4args{
+			Seqid:       s0,
+			ShareAccess: nfsv4.OPEN4_SHARE_ACCESS_READ,
+			ShareDeny:   nfsv4.OPEN4_SHARE_DENY_NONE,
+			Owner:       nfsv4.OpenOwner4{Clientid: c, Owner: []byte("o1")},
+			Openhow:     &nfsv4.Openflag4_default{Opentype: nfsv4.OPEN4_NOCREATE},
+			Claim:       &nfsv4.OpenClaim4_CLAIM_NULL{File: "f"},
+		}}, &nfsv4.NfsArgop4_OP_GETFH{})
+	}
+	first := send()
+	rt.Assert(first.Status == nfsv4.NFS4_OK && len(first.Resarray) == 3, "PUTROOTFH OPEN GETFH succeeds")
+	second := send()
+	rt.Cover("open-compound:replayed")
+	rt.Assert(second.Status == first.Status && len(second.Resarray) == len(first.Resarray), "the retransmitted COMPOUND completes like the original")
+	fh := func(res *nfsv4.Compound4res) string {
+		if g, ok := res.Resarray[2].(*nfsv4.NfsResop4_OP_GETFH); ok {
+			if k, ok := g.Opgetfh.(*nfsv4.Getfh4res_NFS4_OK); ok {
+				return string(k.Resok4.Object)
+			}
+		}
+		return "<none>"
+	}
+	rt.Assert(fh(second) == fh(first), "after a retransmitted OPEN the current file handle is the opened file's, as in the original reply")
+}
